@@ -8,6 +8,7 @@ package rib
 
 func init() {
 	vfRegister("VfRIB_q1", VfRIB_q1)
+	vfRegister("VfRIB_qPfx", VfRIB_qPfx)
 	vfRegister("VfRIB_q2", VfRIB_q2)
 	vfRegister("VfRIB_qNoFwd", VfRIB_qNoFwd)
 	vfRegister("VfRIB_q3", VfRIB_q3)
@@ -77,6 +78,14 @@ func VfRIB_q1() {
 // one symbolic ADD/REPLACE/DELETE.
 func VfRIB_q2() {
 	vfRIBRun(vfRunCfg{pre: vfPreCfg{nNH: 1, nNHG: 1, nHeld: 1, members: 1, topKinds: vfTopQ}, fixLow: true, steps: 1, members: 1})
+}
+
+// qPfx: prefix spellings.  The IPv4 / IPv6 tables are keyed by the prefix string exactly as the client sent it:
+// one next-hop, one group, one top-level entry (IPv4 or IPv6) whose prefix is one of a few accepted spellings of
+// the same and of different prefixes (host bits set, upper-case hex, uncompressed zero group), then one symbolic
+// operation over the same lists.
+func VfRIB_qPfx() {
+	vfRIBRun(vfRunCfg{concPfx: true, pre: vfPreCfg{nNH: 1, nNHG: 1, nTop: 1, members: 1, topKinds: []int{vfKV4, vfKV6}}, fixLow: true, lean: true, steps: 1, members: 1})
 }
 
 // qNoFwd: forward references disallowed; installed state as q1 without the top-level entry.
